@@ -231,7 +231,8 @@ fn judge_rec2(case: &Case, wild: bool, l: &mut Local) {
     let samples = curve_samples(&curve, [10, 24, 40][case.b % 3]);
     let turned = case.kind == "turned2";
     let shift = if turned {
-        Iso2::new(Vector2::new(3.0, -2.0), [100.0 * DEG, 170.0 * DEG, -135.0 * DEG, 60.0 * DEG][case.a % 4])
+        // a >= 4: the measured part is given in a frame far from the reference (a scanner frame)
+        Iso2::new(if case.a >= 4 { Vector2::new(240.0, -130.0) } else { Vector2::new(3.0, -2.0) }, [100.0 * DEG, 170.0 * DEG, -135.0 * DEG, 60.0 * DEG][case.a % 4])
     } else if wild {
         Iso2::new(Vector2::new(0.3, -0.2), [40.0 * DEG, -40.0 * DEG, 25.0 * DEG][case.a % 3])
     } else {
@@ -284,7 +285,8 @@ fn judge_rec3(case: &Case, wild: bool, l: &mut Local) {
     };
     let turned = case.kind == "turned3";
     let shift = if turned {
-        Iso3::new(Vector3::new(3.0, -2.0, 5.0), [Vector3::z() * 2.5, Vector3::x() * -3.0, Vector3::new(1.0, 1.0, 1.0).normalize() * 2.2, Vector3::y() * 1.2][case.a % 4])
+        // a >= 4: the measured part is given in a frame far from the reference (a scanner frame)
+        Iso3::new(if case.a >= 4 { Vector3::new(300.0, -200.0, 150.0) } else { Vector3::new(3.0, -2.0, 5.0) }, [Vector3::z() * 2.5, Vector3::x() * -3.0, Vector3::new(1.0, 1.0, 1.0).normalize() * 2.2, Vector3::y() * 1.2][case.a % 4])
     } else {
         shift
     };
@@ -368,7 +370,7 @@ pub fn cases(tier: Tier) -> Vec<Case> {
                 out.push(c("wild2", shape, 0, a, 1, guess));
             }
         }
-        for a in 0..4 {
+        for a in 0..8 {
             for guess in 0..3 {
                 out.push(c("turned2", shape, 0, a, 1, guess));
             }
@@ -388,7 +390,7 @@ pub fn cases(tier: Tier) -> Vec<Case> {
             for a in 0..3 {
                 out.push(c("wild3", shape, mode, a, 0, 0));
             }
-            for a in 0..4 {
+            for a in 0..8 {
                 for guess in 0..3 {
                     out.push(c("turned3", shape, mode, a, 0, guess));
                 }
